@@ -454,6 +454,25 @@ func verifModelBinaryWrite(w io.Writer, order binary.ByteOrder, data any) error 
 //@ pkgstate visitDocumentCtxPool mutable sync.Pool of visit contexts (ghost protocol poolOwned / poolBalance)
 //@ pkgstate interimPool mutable sync.Pool of builder working memory (reset completeness: clean(...) contracts)
 
+// The New functions of the two pools (the anonymous functions of the package initialiser that return interface{};
+// the same contract is put on each so that it does not matter which is which): what a pool makes is a NEW object of
+// its own whose fields all have their zero value - no two owners ever share one, and a builder that starts on new
+// working memory starts on empty working memory. sync.Pool.Get's assumed "one owner at a time" rests on the first half.
+//@ func init$2 returns (r)
+//@ tags [C10,C11]
+//@ ensures r != nil && payload(r) != nil && fresh(payload(r))
+//@ ensures typeis(r, ptr_interim) ==> allzero(ptr_interim(payload(r)))
+//@ ensures typeis(r, ptr_visitDocumentCtx) ==> allzero(ptr_visitDocumentCtx(payload(r)))
+//@ ensures typeis(r, ptr_interim) || typeis(r, ptr_visitDocumentCtx)
+//@ end
+//@ func init$4 returns (r)
+//@ tags [C10,C11]
+//@ ensures r != nil && payload(r) != nil && fresh(payload(r))
+//@ ensures typeis(r, ptr_interim) ==> allzero(ptr_interim(payload(r)))
+//@ ensures typeis(r, ptr_visitDocumentCtx) ==> allzero(ptr_visitDocumentCtx(payload(r)))
+//@ ensures typeis(r, ptr_interim) || typeis(r, ptr_visitDocumentCtx)
+//@ end
+
 // ---- C07 / C08 / C11: postings list reuse, counts, shared sentinels ----
 
 // The shared empty sentinels are never written: a global invariant, i.e. an implicit pre- and postcondition of
@@ -695,8 +714,8 @@ func lemma1HitDiscriminator(docNum, normBits uint64) {
 //@ tags [C10]
 //@ ensures clean(so)
 // the pooled synonym bitmaps are emptied here (realloc hands them out again as they are)
-//@ loop 3 invariant 0 <= $k && so.Synonyms == old(so.Synonyms) && (forall j int :: {so.Synonyms[j]} 0 <= j && j < $k && j < len(so.Synonyms) ==> so.Synonyms[j] == old(so.Synonyms[j]) && (so.Synonyms[j] != nil ==> bm64Empty(so.Synonyms[j]))) [C10]
-//@ ensures forall j int :: {old(so.Synonyms[j])} 0 <= j && j < old(len(so.Synonyms)) && old(so.Synonyms[j]) != nil ==> bm64Empty(old(so.Synonyms[j])) [C10]
+//@ loop 3 invariant 0 <= $k && so.Synonyms == old(so.Synonyms) && (forall j int :: {so.Synonyms[j]} 0 <= j && j < $k && j < len(so.Synonyms) ==> so.Synonyms[j] == old(so.Synonyms[j]) && (so.Synonyms[j] != nil ==> bm64Empty(so.Synonyms[j]))) [C10,C12]
+//@ ensures forall j int :: {old(so.Synonyms[j])} 0 <= j && j < old(len(so.Synonyms)) && old(so.Synonyms[j]) != nil ==> bm64Empty(old(so.Synonyms[j])) [C10,C12]
 //@ modifies synonymIndexOpaque.*[so], ghost bm64Empty, elems(*)
 //@ end
 
@@ -973,7 +992,8 @@ func lemma1HitDiscriminator(docNum, normBits uint64) {
 //@ thin
 //@ tags [C07]
 //@ requires p != nil && (p.normBits1Hit == 0 && p.postings != nil ==> p.sb != nil)
-//@ requires rv != emptyPostingsIterator || rv == nil
+// the shared empty iterator (what every absent term and absent field answers with) is never handed in for re-use
+//@ requires rv != emptyPostingsIterator || rv == nil [C01,C07,C11]
 //@ ensures it != nil && (rv != nil ==> it == rv) && (rv == nil ==> fresh(it)) [C07,C11]
 //@ ensures it.postings == p && it.includeLocs == includeLocs && it.includeFreqNorm == (includeFreq || includeNorm || includeLocs)
 //@ ensures it.currChunk == 0 && it.bytesRead == 0 || (p.normBits1Hit == 0 && p.postings != nil)
@@ -1239,7 +1259,10 @@ func lemmaUvLenRange(a []byte, o int) {}
 //@ end
 
 //@ func mergeFields returns (same, rv)
-//@ tags [C05]
+//@ tags [C05,C11]
+// the inputs of a merge are shared with concurrent readers and other merges: the unified field list is built in
+// storage of its own (the appends below therefore never land in an input's field list)
+//@ ensures fresh(rv) [C11]
 //@ requires forall i int :: 0 <= i && i < len(segments) ==> segments[i] != nil
 //@ ensures len(rv) >= 1 && rv[0] == "_id"
 //@ ensures same ==> (forall si int :: 0 <= si && si < len(segments) ==> old(sameFieldsAs0(segments, si))) [C05]
@@ -1252,7 +1275,8 @@ func lemmaUvLenRange(a []byte, o int) {}
 // it passes is entered into the set the merged field list is built from
 //@ loop 2 nobreak [C05]
 //@ loop 2 step haskey(fieldsExist, field) [C05]
-//@ loop 3 invariant len(rv) >= 1 && rv[0] == "_id" && fresh(rv) && base(rv) != nil
+//@ loop 3 invariant fresh(rv) && base(rv) != nil
+//@ loop 3 invariant len(rv) >= 1 && rv[0] == "_id"
 //@ loop 3 invariant fieldsSame ==> (forall si int :: 0 <= si && si < len(segments) ==> old(sameFieldsAs0(segments, si))) [C05]
 //@ end
 
@@ -1859,6 +1883,8 @@ func lemmaUvLenRange(a []byte, o int) {}
 //@ ensures old(i.err) != nil && old(i.err) != vellum.ErrIteratorDone ==> e == nil && err == old(i.err) [C12]
 //@ ensures (old(i.err) == nil || old(i.err) == vellum.ErrIteratorDone) && (old(i.itr) == nil || old(i.err) == vellum.ErrIteratorDone) ==> e == nil && err == nil [C12]
 //@ ensures e != nil ==> err == nil && i.entry.Term == old(vitKey(i.itr)) [C12]
+// an enumeration that is not exhausted yields its current key whatever that key is (the empty term included)
+//@ ensures old(i.err) == nil && old(i.itr) != nil ==> e != nil && err == nil [C12]
 //@ assert vellum.Iterator.Next#1 : $this == i.itr [C12]
 //@ end
 
@@ -1990,7 +2016,7 @@ func lemmaSynonymCodeRoundTrip(synonymID, docID uint32) {
 
 //@ func (*PostingsList).Iterator returns (it)
 //@ thin
-//@ tags [C07,C11]
+//@ tags [C01,C07,C11]
 //@ requires p != nil
 //@ wf requires p.normBits1Hit == 0 && p.postings != nil ==> p.sb != nil
 //@ ensures it != nil [C07]
